@@ -224,5 +224,85 @@ Proof.
 Qed.
 End Reachable.
 
+(** * Runs *)
+Lemma crun_snoc c0 cls cl :
+  crun c0 (cls ++ [cl]) = match cstep (crun c0 cls) cl with Some c' => c' | None => crun c0 cls end.
+Proof.
+  revert c0. induction cls as [|l cls IH]; intros c0; simpl.
+  - now destruct (cstep c0 cl).
+  - destruct (cstep c0 l); apply IH.
+Qed.
+Lemma envfree_keeps c cl c' : env_call cl = false -> cstep c cl = Some c' ->
+  used (cg c') = used (cg c) /\ allsubs (cg c') = allsubs (cg c).
+Proof.
+  intros He E. destruct cl as [l|x l]; simpl in E.
+  - destruct (guard c l); [|discriminate]. destruct (gstep (cg c) l) as [g'|] eqn:Es; [|discriminate].
+    inversion E; subst c'; clear E. simpl. step_cases' Es; simpl; auto; discriminate He.
+  - destruct (free_sub l); [|discriminate]. destruct (Sub.sstep (ci c x) l); [|discriminate].
+    inversion E; subst c'. auto.
+Qed.
+(** number of executed counted labels of a run *)
+Fixpoint ccount (c : cstate) (cls : list clabel) : nat :=
+  match cls with
+  | [] => 0
+  | cl :: cls' => match cstep c cl with
+                  | Some c' => (if counted c cl then 1 else 0) + ccount c' cls'
+                  | None => ccount c cls'
+                  end
+  end.
+
+Definition budget (T : list tid) (X : list subid) : nat := 3 * length T * length X.
+Arguments budget : simpl never.
+
+Theorem composed_run_bounded pers blk fx caps fa T X cls' : forall cls,
+  let c := crun (cinit pers blk fx caps fa) cls in
+  (forall p, In p (used (cg c)) -> In p T) -> (forall x, In x (allsubs (cg c)) -> In x X) ->
+  forallb (fun cl => negb (env_call cl)) cls' = true ->
+  ccount c cls' + M T X (crun c cls')
+  <= M T X c + budget T X * count_exec nack_step c cls'.
+Proof.
+  induction cls' as [|cl cls' IH]; intros cls c HT HX Hf; simpl in *; [lia|].
+  apply andb_true_iff in Hf as [He Hf]. apply negb_true_iff in He.
+  destruct (cstep c cl) as [c'|] eqn:E; [|now apply IH].
+  assert (Hc' : c' = crun (cinit pers blk fx caps fa) (cls ++ [cl])).
+  { rewrite crun_snoc. fold c. now rewrite E. }
+  destruct (envfree_keeps c cl c' He E) as [Eu Ea].
+  specialize (IH (cls ++ [cl])). simpl in IH. rewrite <- Hc' in IH.
+  assert (IH' := IH ltac:(intros p; rewrite Eu; apply HT) ltac:(intros x; rewrite Ea; apply HX) Hf).
+  destruct (counted c cl) eqn:Ec.
+  - pose proof (composed_step_decreases pers blk fx caps fa cls T X HT HX cl c' Ec E) as Hd. fold c in Hd.
+    assert (Hn : nack_step cl = false).
+    { destruct cl as [l|x l]; [reflexivity|]. destruct l; try reflexivity. discriminate Ec. }
+    rewrite Hn. lia.
+  - pose proof (uncounted_step_measure pers blk fx caps fa cls T X cl c' Ec He E) as Hd. fold c in Hd.
+    change (3 * length T * length X) with (budget T X) in Hd.
+    destruct (nack_step cl); nia.
+Qed.
+
+(** C05 "every blocking Publish returns" in the composition: from a reachable state c, along
+    every run without API calls (Publish / Subscribe / cancel / Close) the number of executed
+    steps that are not the consumer's (and not a redundant GAllAcked) is at most
+    M c + 3|T||X| * (number of Nacks) - with a Nack budget every such run is finite up to consumer
+    steps; and in a state where nothing of the composition, consumers included, is enabled and no
+    writer is pending or holding, every Publish has returned. *)
+Theorem blocking_returns_composed pers blk fx caps fa cls cls' :
+  let c := crun (cinit pers blk fx caps fa) cls in
+  let T := used (cg c) in let X := allsubs (cg c) in
+  forallb (fun cl => negb (env_call cl)) cls' = true ->
+  ccount c cls' <= M T X c + budget T X * count_exec nack_step c cls'
+  /\ (writer (cg (crun c cls')) = None -> wpending (cg (crun c cls')) = [] ->
+      ~ CProg (crun c cls') -> forall t, publish_pending (thr (cg (crun c cls')) t) = false).
+Proof.
+  intros c T X Hf. split.
+  - pose proof (composed_run_bounded pers blk fx caps fa T X cls' cls (fun p H => H) (fun x H => H) Hf) as H.
+    fold c in H. lia.
+  - assert (Hr : crun c cls' = crun (cinit pers blk fx caps fa) (cls ++ cls')).
+    { unfold c. clear. revert cls'. generalize (cinit pers blk fx caps fa). induction cls as [|l cls IH]; intros c0 cls'; simpl; [reflexivity|].
+      destruct (cstep c0 l); apply IH. }
+    rewrite Hr. apply stuck_means_published.
+Qed.
+
 Print Assumptions composed_step_decreases.
 Print Assumptions uncounted_step_measure.
+Print Assumptions composed_run_bounded.
+Print Assumptions blocking_returns_composed.
